@@ -22,6 +22,16 @@ CHECKS = {
          "the static catalogue (see C13/C14) - expansion translator not built.",
          "6 C02", "wf_env/wf_env_rt hypotheses: <=127 steps and fields, UTF-8 names, Option-spelled fields for "
          "FieldMadeOptional (known class optalias excluded). " + TB),
+ "C03": ("Theorem c03 (Evolution.v, 2100 lines): for ALL legal histories (FieldAdded with default, FieldMadeOptional, "
+         "FieldRemoved, FieldMadeTransient in any interleaving), ALL pairs of versions (kw, kr), ALL values and ALL suffixes, "
+         "the record writer of version kw followed by the record reader of version kr yields exactly `expected` (layer V, "
+         "History.v: default for an added field, wrap/unwrap for made-optional, None or FieldRemovedInSerializedVersion for "
+         "removed/transient, NonOptionalFieldSerializedAsNone) and, when framed, leaves exactly the suffix. Tie: `expected` "
+         "itself is compared with the implementation on random histories x version pairs x values, top level and embedded "
+         "(dynamic route), plus a history compiled version by version with the real macro (static route).",
+         "6 C03", "Stated for field codecs that leave the string table alone (fields_neutral; DESIGN 9.4) - the instantiation "
+         "at enc/dec for neutral field types is a separate corollary; evolution on enum variants goes through the same "
+         "record lemma but the variant-level corollary is not stated. " + TB),
  "C05": ("Theorems: the top-level decoder over the DeserializationContext model (usize arithmetic with explicit Panic, "
          "region stack, index/slice/unwrap) never panics for any bytes and any well-formed type (TotalProofs + SimProofs: "
          "layer B simulates layer A); the three sources answer every count in N like the reference source. Progress / "
@@ -72,6 +82,13 @@ CHECKS = {
          "FieldMadeOptional names are written or removed/transient never fail with UnknownFieldReference. Tie: static and "
          "dynamic pairs differing only in transient fields; histories containing FieldMadeTransient.",
          "6 C14", TB),
+ "C16": ("PARTIAL. Theorems with deflate/inflate as Section oracles: frame = var_u32(len d) ++ var_u32(len z) ++ z; round "
+         "trip through any refining source with any suffix untouched (premise: inflate(deflate l d) = Some d); every "
+         "strict prefix of a frame is an error and the reservation is <= 64 KiB and the framing code never panics - both "
+         "with NO assumption on inflate. Measured, not proved: miniz_oxide does not panic on damaged data, Vec growth "
+         "stays within 2x produced bytes (counting allocator).",
+         "6 C16", "Oracle law inflate(deflate l d) = Some d (flate2/miniz_oxide) assumed; lengths < 2^32 (F18: `as u32` "
+         "truncation beyond, model-only). " + TB),
  "C17": ("Theorems: for every value (well-typed or not) and well-formed declarations the encoder model - which contains "
          "every u8/i8 counter overflow, -(i8::MIN), buffer index, unwrap and the 255-step assertion of the Rust - never "
          "panics except for the i32 string-id counter, which needs 2^31-1 distinct strings already in the stream; the "
